@@ -53,12 +53,36 @@ class Check(ParCheck):
             out.append((nm, par_scenario(nm, 'partial', tree, threads, False)))
         return out
 
+    def stored_value_dropped_once(self, rep):
+        """the value stored in the mock is dropped exactly once overall — also when the instance ends through verify() / report(), passing or failing"""
+        import os, re, subprocess
+        ok, log = engine.build_harness(['chain'])
+        if not ok:
+            path = engine.write_replay(self.prop, 'build', log + '\n', ["harness/src/bin/chain.rs no longer builds against /repo"])
+            rep.violation(path, "chain harness does not build against /repo", no_input=True)
+            return
+        text = ''.join(f"scenario returnsdrop_{e}\nvia unimock\nreturnsdrop end={e}\nend\n" for e in range(5))
+        p = subprocess.run([os.path.join(engine.HARNESS, 'target', 'debug', 'chain')], input=text, capture_output=True, text=True, timeout=300)
+        rows = [re.match(r'returnsdrop end=(\d) reads=\(77, 77\) early=\[(.*)\] dropped_after_end=\[(.*)\]$', l) for l in p.stdout.split('\n') if l.startswith('returnsdrop ')]
+        if p.returncode != 0 or len(rows) != 5 or not all(rows):
+            path = engine.write_replay(self.prop, 'toolerror', p.stdout[-1500:] + p.stderr[-1500:], ["chain harness crashed or printed unexpected returnsdrop lines"])
+            rep.violation(path, "chain harness failed on the returnsdrop scenarios", no_input=True)
+            return
+        ends = ['drop', 'verify()', 'report()', 'a failing verify()', 'a failing report()']
+        for m in rows:
+            if m.group(2) or m.group(3) != '77':
+                e = int(m.group(1))
+                path = engine.write_replay(self.prop, 'spec', f"scenario returnsdrop_{e}\nvia unimock\nreturnsdrop end={e}\nend\n", [f"property C12 violated by the real code: a value stored by returns() must be dropped exactly once overall; the instance ended through {ends[e]}: dropped before the end [{m.group(2)}], after it [{m.group(3)}]", "replay: /verif/harness/target/debug/chain < this file"])
+                rep.violation(path, f"stored value not dropped exactly once when the instance ends through {ends[e]}: before [{m.group(2)}], after [{m.group(3)}]")
+        rep.coverage['stored_value_drop_cases'] = len(rows)
+
     def extra(self, rep, tier, seed):
         # owned leaves inside Option / Result / tuple / Vec / Poll composites: the compiled cases of C17's harness,
         # single-use and repeatable paths, compared with the Output model (theorem C17_once, imported by Props/C12)
         from .c17 import Check as C17
         C17().explore(rep, only_paths=None, merge=True, prop=self.prop)
         self.leaf_race(rep, tier)
+        self.stored_value_dropped_once(rep)
         # compile-time half: the builder refuses to quantify a non-Clone value for more than one use
         from .. import tscheck
         tscheck.report(self, rep, tier, 'C12')
